@@ -36,6 +36,22 @@ def describe(d):
     return out
 
 
+def domain_violations(prior, ndraw):
+    """count prior draws outside the physical domain the property states (r_eff >= 0.5, ellip in [0, 0.9], n in [0.65, 8], fractions in [0, 1])"""
+    bad = {}
+    def model():
+        return prior()
+    for s in range(ndraw):
+        d = handlers.seed(model, jax.random.PRNGKey(s))()
+        for k, v in d.items():
+            v = float(v)
+            if k.startswith("r_eff") and v < 0.5 - 1e-6: bad[k] = bad.get(k, 0) + 1
+            if k.startswith("ellip") and not (-1e-6 <= v <= 0.9 + 1e-6): bad[k] = bad.get(k, 0) + 1
+            if (k == "n" or k.startswith("n_")) and not (0.65 - 1e-6 <= v <= 8 + 1e-6): bad[k] = bad.get(k, 0) + 1
+            if k.startswith("f_") and not (-1e-6 <= v <= 1 + 1e-6): bad[k] = bad.get(k, 0) + 1
+    return bad
+
+
 def run_table(c):
     props = SourceProperties(-99)
     g = c["guesses"]
@@ -53,6 +69,9 @@ def run_table(c):
     if not prior.check_vars():
         out["oracle"].append("check_vars() is False for a generated prior" if c["suffix"] == "" else "")
         out["oracle"] = [o for o in out["oracle"] if o]
+    bad = domain_violations(prior, c.get("ndraw", 40))
+    if bad:
+        out["oracle"].append("prior draws outside the physical domain: %s (r_eff guess %s)" % (bad, g["r_eff_guess"]))
     return out
 
 
@@ -70,8 +89,10 @@ def run_multi(c):
     except Exception as ex:  # noqa
         return {"keys": [], "sky_keys": [], "N": -1, "entries": {}, "failed": True,
                 "oracle": ["PySersicMultiPrior(%s catalogue%s) raised %s: %s" % (c["form"], "" if "theta" in c["catalog"] else " without theta column", type(ex).__name__, ex)]}
+    bad = domain_violations(mp, c.get("ndraw", 25))
     return {"keys": list(mp.dist_dict.keys()), "sky_keys": list(mp.sky_prior.dist_dict.keys()), "N": int(mp.N_sources),
-            "entries": {k: describe(d) for k, d in mp.dist_dict.items() if k.startswith(("xc", "yc", "flux"))}, "oracle": []}
+            "entries": {k: describe(d) for k, d in mp.dist_dict.items() if k.startswith(("xc", "yc", "flux"))},
+            "oracle": ["multi-source prior draws outside the physical domain: %s" % bad] if bad else []}
 
 
 def run_image(c):
